@@ -3,6 +3,7 @@ package main
 import (
 	"fmt"
 	"io"
+	"math/bits"
 	"os"
 
 	"github.com/Eyevinn/mp4ff/mp4"
@@ -229,6 +230,17 @@ func getSegmentStartsFromVideo(parsedMp4 *mp4.File, segDurMS uint32) (timeScale 
 	return timeScale, syncPoints
 }
 
+// mulDiv returns a*b/c (rounded down) computed with a 128-bit intermediate
+// product, so that it does not overflow for large time scales.
+func mulDiv(a, b, c uint64) uint64 {
+	hi, lo := bits.Mul64(a, b)
+	if hi >= c { // quotient does not fit in 64 bits
+		return ^uint64(0)
+	}
+	q, _ := bits.Div64(hi, lo, c)
+	return q
+}
+
 type sampleInterval struct {
 	startNr uint32
 	endNr   uint32 // included in interval
@@ -251,7 +263,7 @@ func getSegmentIntervals(syncTimescale uint32, syncPoints []syncPoint, trak *mp4
 			endSampleNr = totNrSamples
 		} else {
 			nextSyncStart := syncPoints[i+1].decodeTime
-			nextStartTime := nextSyncStart * uint64(trak.Mdia.Mdhd.Timescale) / uint64(syncTimescale)
+			nextStartTime := mulDiv(nextSyncStart, uint64(trak.Mdia.Mdhd.Timescale), uint64(syncTimescale))
 			nextStartSampleNr, err = trak.Mdia.Minf.Stbl.Stts.GetSampleNrAtTime(nextStartTime)
 			if err != nil {
 				return nil, err
